@@ -16,6 +16,8 @@
 #include <sys/wait.h>
 #include <unistd.h>
 #include <atomic>
+#include <map>
+#include <vector>
 #include <mutex>
 #include <set>
 #include <thread>
@@ -599,7 +601,33 @@ void run_program(vh::Reader &rd, Env &e, ThreadResult &res, const std::string &l
             res.tags.push_back("start-under-invalid-active");
         }
 
-        auto span = e.tracer->StartSpan("s", opt);
+        // every public StartSpan entry point leads to the same parent resolution: the overload is picked by the
+        // number of the span within the program (no stream byte is consumed, saved replays keep their meaning)
+        opentelemetry::nostd::shared_ptr<tr::Span> span;
+        switch (spans.size() % 5)
+        {
+          case 0:
+            span = e.tracer->StartSpan("s", opt);
+            break;
+          case 1:
+            span = e.tracer->StartSpan("s", {{"k", 1}}, opt);  // initializer-list attributes
+            break;
+          case 2: {
+            std::map<std::string, int> am{{"a", 1}};
+            span = e.tracer->StartSpan("s", am, opt);  // container attributes, no links
+            break;
+          }
+          case 3: {
+            std::map<std::string, int> am{{"a", 1}};
+            std::vector<std::pair<tr::SpanContext, std::map<std::string, int>>> lk;
+            span = e.tracer->StartSpan("s", am, lk, opt);  // container attributes and (no) links
+            break;
+          }
+          default:
+            span = e.tracer->StartSpan("s", {{"k", 1}}, {{tr::SpanContext::GetInvalid(), {{"l", 2}}}}, opt);
+            break;
+        }
+        res.tags.push_back("start-overload-" + std::to_string(spans.size() % 5));
         T_CHECK(span != nullptr, "StartSpan returned null");
         tr::SpanContext got = span->GetContext();
         const std::string where = " (span#" + std::to_string(spans.size()) + ", parent form " + form + ", active " +
